@@ -1,5 +1,8 @@
 import VhostModel.Drv.Valid
 import VhostModel.Drv.Srv
+import VhostModel.Drv.Fe
+import VhostModel.Drv.Send
+import VhostModel.Drv.Locks
 /-! Model driver: one scenario per input line, one prediction per output line. -/
 
 def dispatch (line : String) : String :=
@@ -7,6 +10,9 @@ def dispatch (line : String) : String :=
   match toks with
   | "valid" :: _ => Drv.Valid.run toks
   | "srv" :: _ => Drv.Srv.run toks
+  | "fe" :: _ => Drv.Fe.run toks
+  | "send" :: _ => Drv.Send.run toks
+  | "locks" :: _ => Drv.Locks.run toks
   | _ => "bad-family"
 
 partial def loop (h : IO.FS.Stream) (out : IO.FS.Stream) : IO Unit := do
